@@ -86,7 +86,7 @@ def _psn_log(S_, kind):
 c.exit_check(_psn_log)
 
 # config.is_app_frame through the action context (C19 proves ConfigService.is_app_frame itself)
-c = contract(SA, "SnapshotActionContext.is_app_frame", ["C02"])
+c = contract(SA, "SnapshotActionContext.is_app_frame", [])
 c.param("self", OBJ("SnapshotActionContext")).param("filename", STR)
 c.result = TUPLE(BOOL, OPT(STR))
 c.modifies = lambda S_: []
